@@ -16,6 +16,11 @@ def c18_key(aid, events, outs):
     return "c18:%s:%s" % (aid, ",".join("%s=%s" % (k, v) for k, v in sorted(m.items()) if k.startswith("shortcut")))
 
 
+def c09_key(aid, events, outs):
+    o = {x["key"]: x["val"] for x in outs}
+    return "c09:%s:%s" % (aid, o.get("rule", "?"))
+
+
 def c11_key(aid, events, outs):
     m = {e["name"]: e["value"] for e in events}
     role = {"mode_main": "main", "mode_impa": "import", "mode_impb": "import", "mode_dep": "import", "mode_v0": "version"}
@@ -64,7 +69,24 @@ C02_UNION3_PART = (G, "gosym_part", dict(name="c02_union_tagging_3", entry="inte
                                          desc="C++ and Python NDJSON generators take the same tag-or-not decision on 3-case unions over a reduced case vocabulary",
                                          assumptions=["JSON kind table transcribed from docs/reference/ndjson.md (harness specKinds)"]))
 
+C09_ASSUME = ["models are built at the level dsl.Validate receives them (YAML text -> AST is outside)",
+              "base model: harness baseModel (enum, record, alias, generic record + instantiation, protocol) in a main namespace and in an imported namespace",
+              "one violation per run; names drawn from small finite domains decided by the solver"]
+
 PARTS = {
+    "C09": [
+        (G, "gosym_part", dict(name="c09_base", entry="internal/zzverif.C09Base", required_sites=("base-accepted",), assumptions=C09_ASSUME,
+                               desc="the unmodified two-namespace base model validates (guards against an over-rejecting harness)")),
+        (G, "gosym_part", dict(name="c09_type_rules", entry="internal/zzverif.C09TypeRule", key_fn=c09_key,
+                               required_sites=("violation-rejected", "error-names-offending-file", "stream-step-accepted", "no-panic"), assumptions=C09_ASSUME,
+                               desc="16 type-level rule violations (unknown type, arity x4, ill-formed unions x5, stream misplaced, non-primitive map key, array dimensions x3, "
+                                    "protocol reference) x 10 positions (field, alias, step, vector/optional/union/map/generic-argument/stream item, alias chain) x {main, imported namespace}: "
+                                    "the real dsl.Validate returns an error naming the offending file")),
+        (G, "gosym_part", dict(name="c09_def_rules", entry="internal/zzverif.C09DefRule", key_fn=c09_key,
+                               required_sites=("violation-rejected", "error-names-offending-file", "no-panic"), assumptions=C09_ASSUME,
+                               desc="21 definition-level rule violations (duplicate/badly-cased/reserved names, enum symbols/values/base/range, generics on enum/protocol, unused type "
+                                    "parameter, reference cycles, duplicate computed field) x {main, imported namespace}")),
+    ],
     "C13": [
         (G, "gosym_part", dict(name="c13_order_and_files", entry="internal/zzverif.C13Order", args_quick=(1,), args_thorough=(0,),
                                required_sites=("reordered-accepted", "same-schema", "dependencies-first", "same-field-plan", "same-python-serializer"),
@@ -188,6 +210,10 @@ NOTES = ("Every claim is bounded: 'holds' means unsat within the stated bound. E
 NOT_APPLICABLE = {}
 
 CLAIMS = {
+    "C09": dict(text="Bounded symbolic execution (gosym) of the whole real validation pipeline on base-model + one rule violation: 16 type-level rules x 10 positions and 21 "
+                     "definition-level rules, each in the main and in an imported namespace: validation fails and the error text names the offending file. Two genuine defects found "
+                     "this way were repaired (fix: commits 0de7622, b7cf9f1). Package-level propagation (imports, previous versions) is the C11 part.",
+                note="AST level (after yaml.v3/participle); computed-field typing errors are covered by C19/C10 parts when registered; the rule list is the harness' transcription of docs/*/language.md."),
     "C03": dict(engine="gosym+pysym(+llsym via C01)",
                 text="Portability is decomposed: (1) every backend's emitted serializer denotes the same wire plan (C14 part, gosym); (2) the C++ and Python NDJSON generators take "
                      "the same tag-or-not decision for unions (gosym); (3) the Python writer's unchecked byte stores are always inside the buffer from any valid state (pysym, one "
